@@ -4,6 +4,7 @@ import (
 	"encoding/base64"
 	"encoding/json"
 	"fmt"
+	"net/url"
 	"sort"
 	"strconv"
 	"strings"
@@ -48,6 +49,10 @@ type Locks struct {
 	Events []LockEvent
 	// Problems: conformance problems of lock requests (C18)
 	Problems []string
+	// handed: cursors the server gave out
+	handed map[string]int
+	// KnownPaths, when set, is the set of paths the scenario may ask about
+	KnownPaths map[string]bool
 }
 
 // NewLockTable creates a lock API implementation.
@@ -135,6 +140,17 @@ func (l *Locks) serve(s *LFSServer, rec *ReqRec) *Resp {
 			return noted(JSONResp(500, errBody("lock server trouble")), "lock.list-500")
 		}
 		q := parseQuery(rec.Query)
+		for k, v := range q {
+			switch k {
+			case "path":
+				if l.KnownPaths != nil && !l.KnownPaths[v] {
+					l.Problems = append(l.Problems, fmt.Sprintf("lock list asks about path %q (raw query %q), which is not a path of this repository", v, rec.Query))
+				}
+			case "id", "cursor", "limit", "refspec":
+			default:
+				l.Problems = append(l.Problems, fmt.Sprintf("lock list query has unknown parameter %q (raw query %q)", k, rec.Query))
+			}
+		}
 		var out []*SimLock
 		for _, k := range l.sorted() {
 			if p, ok := q["path"]; ok && p != k.Path {
@@ -238,29 +254,40 @@ func noted(r *Resp, n string) *Resp { r.Note = n; return r }
 
 func parseQuery(q string) map[string]string {
 	m := map[string]string{}
-	for _, kv := range strings.Split(q, "&") {
-		if kv == "" {
-			continue
+	vals, err := url.ParseQuery(q)
+	if err != nil {
+		m["<unparsable>"] = q
+		return m
+	}
+	for k, v := range vals {
+		if len(v) > 0 {
+			m[k] = v[0]
 		}
-		p := strings.SplitN(kv, "=", 2)
-		v := ""
-		if len(p) == 2 {
-			v = p[1]
-		}
-		v = strings.ReplaceAll(v, "%2F", "/")
-		v = strings.ReplaceAll(v, "%2f", "/")
-		m[p[0]] = v
 	}
 	return m
+}
+
+// cursorFor makes an opaque cursor that needs correct URL escaping (it
+// contains '+', '/' and '=' like standard base64).
+func (l *Locks) cursorFor(n int) string {
+	if l.handed == nil {
+		l.handed = map[string]int{}
+	}
+	c := fmt.Sprintf("c+/%d==", n)
+	l.handed[c] = n
+	return c
 }
 
 func (l *Locks) paginate(s *LFSServer, key string, all []*SimLock, cursor, limit string) (page []*SimLock, next string, bad *Resp) {
 	start := 0
 	if cursor != "" {
-		n, err := strconv.Atoi(cursor)
-		if err != nil || n < 0 || n > len(all) {
-			l.Problems = append(l.Problems, "list cursor "+cursor+" was never handed out")
+		n, ok := l.handed[cursor]
+		if !ok || n < 0 || n > len(all)+1 {
+			l.Problems = append(l.Problems, fmt.Sprintf("list cursor %q was never handed out by the server", cursor))
 			return nil, "", JSONResp(400, errBody("bad cursor"))
+		}
+		if n > len(all) {
+			n = len(all)
 		}
 		start = n
 		if s.hit(key, l.F.FailSecondPage, "lock.page2-5xx") {
@@ -276,7 +303,7 @@ func (l *Locks) paginate(s *LFSServer, key string, all []*SimLock, cursor, limit
 	end := len(all)
 	if size > 0 && start+size < end {
 		end = start + size
-		next = strconv.Itoa(end)
+		next = l.cursorFor(end)
 	}
 	return all[start:end], next, nil
 }
